@@ -83,6 +83,10 @@ def impl_main(mode, fin, fout):
             for n in acc:
                 res["html"][n] = safe(n)
             d = build_dict([t[0], _floatify(t[1])])
+            if len(res["graphs"]) % 3 == 2 or c.get("share"):
+                # the same sub-chain OBJECT in every slot that holds an equal sub-chain (a dictionary assembled from shared parts
+                # is the same chain dictionary)
+                d = share_equal_parts(d, {})
             try:
                 if len(res["graphs"]) % 2 == 1:
                     # every second graph of a session is made in another thread of the same process (started and joined at once):
@@ -112,6 +116,18 @@ def impl_main(mode, fin, fout):
     Path(fout).write_text(json.dumps(out))
 
 
+def share_equal_parts(d, memo):
+    if isinstance(d, dict):
+        out = {k: share_equal_parts(v, memo) for k, v in d.items()}
+        if len(out) == 1 and isinstance(next(iter(out.values())), list):          # a sub-chain {mother: [modes]}
+            key = json.dumps(out, sort_keys=True, default=str)
+            return memo.setdefault(key, out)
+        return out
+    if isinstance(d, list):
+        return [share_equal_parts(x, memo) for x in d]
+    return d
+
+
 def _floatify(modes):
     return [[float(bf), [x if isinstance(x, str) else [x[0], _floatify(x[1])] for x in fs], info] for bf, fs, info in modes]
 
@@ -126,12 +142,13 @@ def rand_dict(rng, depth, names, top=True):
             if depth > 0 and rng.random() < 0.35:
                 sub = rand_dict(rng, depth - 1, names, top=False)
                 fs.append(sub)
-                if rng.random() < 0.2:
-                    fs.append(json.loads(json.dumps(sub, default=lambda f: {"__q__": [f.numerator, f.denominator]})) if False else sub)
+                if rng.random() < 0.3:
+                    fs.append(sub)                      # the same decaying daughter a second time
             else:
                 fs.append(rng.choice(names))
         info = {"model": rng.choice(["PHSP", "VSS", ""]), "model_params": ""}
-        modes.append([Fraction(rng.choice([1, 2, 5, 25, 125, 3, 7]), rng.choice([10, 100, 1000, 8, 4])), fs, info])
+        # also values whose decimal expansion does not end (2/3, 1/7 ...) and very small ones: the label is the number, all of it
+        modes.append([Fraction(rng.choice([1, 2, 5, 25, 125, 3, 7]), rng.choice([10, 100, 1000, 8, 4, 3, 7, 9, 11, 10**12, 3 * 10**11])), fs, info])
     return [m, modes]
 
 
